@@ -169,11 +169,11 @@ def h_indexed_on_register(env, N, k, q):
 
 
 def h_gate_reuse(env, N, name, qubits, order):
-    """one gate object used repeatedly in the given order of calls ('f' forward, 'b' backward, 'c' compile, 'k' replace the gate by its copy): every call
+    """one gate object used repeatedly in the given order of calls ('f' forward, 'b' backward, 'c' compile, 'k' replace the gate by its copy; a leading 'n' / 'u' passes the qubits as numpy.int64 / numpy.uint8): every call
     acts as the textbook gate or its inverse (lazy inversion, compilation and caching must not change the gate)"""
     M = Mods(env)
-    qs = [np.int64(q) for q in qubits] if order.startswith('n') else list(qubits)
-    order = order.lstrip('n')
+    qs = [np.int64(q) for q in qubits] if order.startswith('n') else ([np.uint8(q) for q in qubits] if order.startswith('u') else list(qubits))
+    order = order.lstrip('nu')
     res = env.run(lambda: getattr(M.ci, name)(*qs))
     env.goal('constructed', b_not(res.raised))
     if res.value is None:
@@ -282,7 +282,7 @@ def jobs(tier):
     for N in (2, 3):
         for name, qsets in (('H', [[0]]), ('S', [[N - 1]]), ('Y', [[0]]), ('CNOT', [[0, 1], [1, 0], [N - 1, 0]])):   # S is not an involution
             for qubits in qsets:
-                for order in ('bf', 'fbf', 'cfb', 'fcf', 'cbcf', 'nfb', 'ncf', 'bkf', 'ckfb', 'fkbf', 'kfb'):
+                for order in ('bf', 'fbf', 'cfb', 'fcf', 'cbcf', 'nfb', 'ncf', 'ufb', 'ucf', 'bkf', 'ckfb', 'fkbf', 'kfb'):
                     J.append(dict(harness=('c11', 'h_gate_reuse'), params=dict(N=N, name=name, qubits=qubits, order=order)))
     for N in (2, 3):
         for name, qubits in (('H', [0]), ('S', [N - 1]), ('Y', [1]), ('CNOT', [0, 1]), ('CNOT', [N - 1, 0])):
